@@ -41,8 +41,11 @@ def _tasks(P, kinds, optmask, **kw):
 
 
 # ------------------------------------------------------------------------------------------------
-def shape_static(kinds, optmask, delays, between=None, second_solver=False, horizon=False):
+def shape_static(kinds, optmask, delays, between=None, second_solver=False, horizon=False, dated=None):
+    """dated: None | (release flags, due kinds) per task, e.g. ((False, True), ('soft', None))"""
     name = f"static/{'+'.join(kinds)}/opt{''.join(str(int(b)) for b in optmask)}/delay_{delays}"
+    if dated:
+        name += "/dated_" + "_".join(f"r{int(r)}{(d or 'none')[0]}" for r, d in zip(*dated))
     if between:
         name += f"/{between}_declared_between_assignments"
     if second_solver:
@@ -50,7 +53,14 @@ def shape_static(kinds, optmask, delays, between=None, second_solver=False, hori
 
     def build(P):
         pb, hv = new_problem(P, horizon)
-        tis = _tasks(P, kinds, optmask)
+        if dated:
+            # tasks with release dates and (soft or hard) due dates sharing the worker
+            tis = []
+            for i, k in enumerate(kinds):
+                kwt = dict(optional=optmask[i], release=dated[0][i], due=dated[1][i])
+                tis.append(make_task(P, "ABCDEFG"[i], "var", vmin=True, vmax=True, **kwt) if k == "var" else make_task(P, "ABCDEFG"[i], k, **kwt))
+        else:
+            tis = _tasks(P, kinds, optmask)
         w = ps.Worker(name="W")
         kw = {}
         ctx = Ctx(problem=pb, tis=tis, w=w, din=0, eout=0)
@@ -252,6 +262,13 @@ def shapes(tier):
     for between in ("unavailable", "workload", "indicator"):
         out.append(shape_static(("fixed", "fixed", "fixed"), (False, False, False), "none", between=between))
     out.append(shape_static(("fixed", "var"), (False, False), "both", second_solver=True))
+    # release / due dates (deadline or soft) on tasks sharing a worker: capacity must not depend on them
+    for rel in [(False, True), (True, False), (True, True)]:
+        for due in [("soft", None), (None, "soft"), ("soft", "deadline"), ("deadline", "soft"), ("soft", "soft")]:
+            if thorough or (rel, due) in [((False, True), ("soft", None)), ((True, False), (None, "soft")), ((True, True), ("soft", "deadline")),
+                                          ((True, True), ("soft", "soft")), ((False, True), ("deadline", "soft"))]:
+                out.append(shape_static(("fixed", "fixed"), (False, False), "none", dated=(rel, due)))
+    out.append(shape_static(("fixed", "var", "fixed"), (False, True, False), "none", dated=((True, True, False), ("soft", "soft", "deadline"))))
     out.append(shape_static(("fixed", "fixed"), (False, False), "both", horizon=True))
     # dynamic
     for kinds in [("fixed", "fixed"), ("var", "fixed"), ("var", "var", "fixed")]:
